@@ -100,6 +100,8 @@ def check(rep, an, tier):
             # the best fit returned for out-of-gamut targets lies within the bounds: both bound constraints exist on every path
             F.must_constraint(rep, res, entry, "lb", "lower bound (best-fit fallback)", local_only=True)
             F.must_constraint(rep, res, entry, "ub", "upper bound (best-fit fallback)", local_only=True)
+            R.rule_every_iteration_solves(rep, res, entry)      # … and every out-of-gamut row is really fitted
+            F.every_row_solved(rep, res, entry)
             for ev in fits:
                 fn = ev.d["callee"]
                 bound = dict(ev.d["kws"])
